@@ -48,12 +48,23 @@ def table(seed):
     return 0.4 + 2.4 * rng.beta(2.0, 3.0, size=(300, 5))
 
 
-def make_slicer(vc, kind, variant):
+SLICER_OPTION_VALUES = {"value_range": (0, 5), "include_max": True, "right_open": True, "last_full": True,
+                        "width": 0.8, "n_intervals": 3, "n_points": 50, "reference": "left"}
+
+
+def make_slicer(vc, kind, variant, ctx):
     if kind == "Ok":
         return vc.NumberOfIntervalsSlicer(3, min_n_points=20)
     if kind == "UnknownKwarg":
-        return (vc.WidthOfIntervalSlicer(0.8, min_n_points=20, min_points=3) if variant % 2 else
-                vc.NumberOfIntervalsSlicer(3, min_n_points=20, n_points=3))
+        skind, skw = ctx["skind"], ctx["skw"]
+        if skind == "any":
+            skind = ("Width", "Number", "Points")[variant % 3]
+        kw = {"bogus": {"min_points": 3}}.get(skw) or {skw: SLICER_OPTION_VALUES[skw]}
+        if skind == "Width":
+            return vc.WidthOfIntervalSlicer(0.8, min_n_points=20, **kw)
+        if skind == "Number":
+            return vc.NumberOfIntervalsSlicer(3, min_n_points=20, **kw)
+        return vc.PointsPerIntervalSlicer(100, min_n_points=20, **kw)
     if kind == "UnknownRef":
         return (vc.WidthOfIntervalSlicer(0.8, reference="middle", min_n_points=20) if variant % 2 else
                 vc.NumberOfIntervalsSlicer(3, reference="centre", min_n_points=20))
@@ -73,7 +84,7 @@ def build(vc, case, carriers, variant):
         fam = carriers[i]
         names = PARAMS[fam]
         desc = {}
-        sl = make_slicer(vc, dm["slicer"], variant + i)
+        sl = make_slicer(vc, dm["slicer"], variant + i, case["ctx"])
         slicers.append(sl)
         desc["intervals"] = sl
         if dm["dist"] == "Ok":
@@ -254,7 +265,8 @@ def case_key(case):
     cx = case["ctx"]
     return (f"n={case['n']} base={case['b']} mal={mal_text(case)} "
             f"op={case['op']['kind']}/{case['op']['arg']} fit={case['fit']['kind']} data={case['data']} cond=[{conds}] "
-            f"ctx=allfixed:{cx['fixed']},sample:{cx['sample']},fitted:{int(cx['fitted'])},opt:{cx['opt']}")
+            f"ctx=allfixed:{cx['fixed']},sample:{cx['sample']},fitted:{int(cx['fitted'])},opt:{cx['opt']},"
+            f"slicer:{cx['skind']}/{cx['skw']}")
 
 
 def judge(ctx, cases, recs, cfg):
@@ -274,7 +286,8 @@ def run(ctx):
                 "{every valid operation and fit description (well-formed) ; every single malformation at every "
                 "position, each additionally in the contexts that a validation must not depend on (all-fixed "
                 "carrier at the dimension of a malformed fit description, caller-supplied 2-/n-column sample for "
-                "the 2-D-only contours, unfitted model, optional HDC deltas omitted) ; every pair of malformations of different fields (quick: 3 structures, thorough: all 9)}; "
+                "the 2-D-only contours, unfitted model, optional HDC deltas omitted, every slicer class with a bogus "
+                "option and with every option that only a sibling slicer knows) ; every pair of malformations of different fields (quick: 3 structures, thorough: all 9)}; "
                 "carrier families rotate with the case index (thorough: every single malformation and every "
                 "well-formed case additionally with all 7 families). distinct = distinct abstract case; all "
                 "non-trivial (each runs at least the constructor)")
@@ -293,6 +306,7 @@ def run(ctx):
     ctx.model_check("Validation", "MC_Validation_mut.cfg", expect_violation="RejectedNotComputed", workers=4)
     ctx.model_check("Validation", "MC_Validation_mut_allfixed.cfg", expect_violation="RejectedNotComputed", workers=4)
     ctx.model_check("Validation", "MC_Validation_mut_sample.cfg", expect_violation="RejectedNotComputed", workers=4)
+    ctx.model_check("Validation", "MC_Validation_mut_slicerkw.cfg", expect_violation="RejectedNotComputed", workers=4)
     # ---- R
     cases = ctx.generate("Validation", ctx.pick("Gen_Validation_quick.cfg", "Gen_Validation_thorough.cfg"))
     cases.sort(key=case_key)
